@@ -13,10 +13,14 @@ forward passes (not trusted), `bodyCheck` = infer + verify.  Soundness against t
 Lemmas/VmBodyCheck.lean (`covF_step`, `covF_guard`), used by Props/C01Vm.lean
 (`C01Vm_render_no_special_checked`, `bodyCheck_sound`).
 
-Conservative where it does not matter for compiler output: `Break` may continue at any
-instruction (its target is the loop's `end_ip`, a run-time value), so a chunk that contains both a
-`Break` and a `RenderBodyComponent` is refused; `StoreDidNotIterate` and `RenderBlock` reset the
-flags (nothing is assumed of a nested `interpret` that runs on the caller's stack).
+Next to the flags it keeps the `end_ip`s of the loops the chunk itself pushed and has not popped
+(`ALoops`; `StartIterate` pushes 0, `Iterate(t)` records `t`, `PopLoop` pops), which is where a
+`Break` continues.
+
+Conservative where it does not matter for compiler output: `StoreDidNotIterate`, `RenderBlock` and
+`super()` reset what is known (nothing is assumed of a nested `interpret` that runs on the caller's
+stack and loops), so `super()` as an argument of a call with a body is refused; a `Break` outside
+any loop of its own chunk may continue anywhere.
 -/
 import TeraModel.Model.Vm
 namespace Tera.Vm
@@ -58,12 +62,33 @@ def bflags (i : VInstr) (pc pc' : Nat) (f : Flags) : Flags :=
   | .endCapture => true :: f
   | .appendToList => true :: f.drop 2
 
+/-- the `end_ip`s of the loops the chunk pushed and has not popped, innermost first (below them:
+the caller's loops, unknown); `none` = nothing known -/
+abbrev ALoops := Option (List Nat)
+
+/-- own loops after the turn of instruction `i` at `pc` that continues at `pc'` -/
+def bloops (i : VInstr) (pc pc' : Nat) (l : ALoops) : ALoops :=
+  match i with
+  | .startIterate .. => l.map (0 :: ·)
+  | .iterate t =>
+    match l with
+    | some (x :: xs) =>
+      if t = pc + 1 then none else if pc' = t then some (x :: xs) else some (t :: xs)
+    | other => other
+  | .popLoop => l.map List.tail
+  | .renderBlock _ => none
+  | .callFunction n => if n = "super" then none else l
+  | _ => l
+
 /-- where the turn may continue (`len` = length of the chunk; beyond it the run ends) -/
-def bsuccs (i : VInstr) (pc len : Nat) : List Nat :=
+def bsuccs (i : VInstr) (pc len : Nat) (l : ALoops) : List Nat :=
   match i with
   | .jump t => [t]
   | .popJumpIfFalse t | .jumpIfFalseOrPop t | .jumpIfTrueOrPop t | .iterate t => [t, pc + 1]
-  | .break_ => List.range len ++ [pc + 1]
+  | .break_ =>
+    match l with
+    | some (x :: _) => [x]
+    | _ => List.range len ++ [pc + 1]
   | _ => [pc + 1]
 
 /-- the body slot of `RenderBodyComponent` carries the flag -/
@@ -74,23 +99,34 @@ def bguardOk (i : VInstr) (f : Flags) : Bool :=
 
 /-! ### tables -/
 
-abbrev FTable := List (Option Flags)
+structure AState where
+  flags : Flags
+  loops : ALoops
+  deriving Repr, DecidableEq, Inhabited
 
-def coveredF (table : FTable) (len : Nat) (p : Nat) (g : Flags) : Bool :=
+abbrev FTable := List (Option AState)
+
+/-- `t` claims no more than `a` -/
+def AState.le (t a : AState) : Bool := fle t.flags a.flags && (t.loops.isNone || t.loops == a.loops)
+
+def coveredF (table : FTable) (len : Nat) (p : Nat) (g : AState) : Bool :=
   decide (len ≤ p) ||
     match table[p]? with
-    | some (some t) => fle t g
+    | some (some t) => t.le g
     | _ => false
+
+def astepF (i : VInstr) (pc p : Nat) (a : AState) : AState := ⟨bflags i pc p a.flags, bloops i pc p a.loops⟩
 
 def verifyAtF (code : List VEntry) (table : FTable) (pc : Nat) : Bool :=
   match table[pc]?, code[pc]? with
-  | some (some f), some e =>
-    bguardOk e.1 f && (bsuccs e.1 pc code.length).all fun p => coveredF table code.length p (bflags e.1 pc p f)
+  | some (some a), some e =>
+    bguardOk e.1 a.flags &&
+      (bsuccs e.1 pc code.length a.loops).all fun p => coveredF table code.length p (astepF e.1 pc p a)
   | _, _ => true
 
 /-- The table is a valid certificate for the chunk entered with nothing known of the stack. -/
 def verifyF (code : List VEntry) (table : FTable) : Bool :=
-  coveredF table code.length 0 [] && (List.range code.length).all (verifyAtF code table)
+  coveredF table code.length 0 ⟨[], some []⟩ && (List.range code.length).all (verifyAtF code table)
 
 /-! ### inference (forward passes to a fixed point; not trusted) -/
 
@@ -98,10 +134,13 @@ def meetF : Flags → Flags → Flags
   | x :: xs, y :: ys => (x && y) :: meetF xs ys
   | _, _ => []
 
-def mergeF (len : Nat) (table : FTable) (p : Nat) (g : Flags) : FTable :=
+def AState.meet (a b : AState) : AState :=
+  ⟨meetF a.flags b.flags, if a.loops == b.loops then a.loops else none⟩
+
+def mergeF (len : Nat) (table : FTable) (p : Nat) (g : AState) : FTable :=
   if p < len then
     match table[p]? with
-    | some (some t) => table.set p (some (meetF t g))
+    | some (some t) => table.set p (some (t.meet g))
     | _ => table.set p (some g)
   else table
 
@@ -112,13 +151,10 @@ def inferPassF (code : List VEntry) : Nat → Nat → FTable → FTable
     | none => table
     | some e =>
       match table[pc]? with
-      | some (some f) =>
-        -- `Break` is checked against every entry by `verifyF`; inference follows the fall-through
-        let succs := match e.1 with
-          | .break_ => [pc + 1]
-          | i => bsuccs i pc code.length
+      | some (some a) =>
         inferPassF code fuel (pc + 1)
-          (succs.foldl (fun tb p => mergeF code.length tb p (bflags e.1 pc p f)) table)
+          ((bsuccs e.1 pc code.length a.loops).foldl
+            (fun tb p => mergeF code.length tb p (astepF e.1 pc p a)) table)
       | _ => inferPassF code fuel (pc + 1) table
 
 def inferFixF (code : List VEntry) : Nat → FTable → FTable
@@ -128,7 +164,8 @@ def inferFixF (code : List VEntry) : Nat → FTable → FTable
     if table' == table then table else inferFixF code n table'
 
 def inferF (code : List VEntry) : FTable :=
-  if code.isEmpty then [] else inferFixF code 8 ((List.replicate code.length none).set 0 (some []))
+  if code.isEmpty then []
+  else inferFixF code 8 ((List.replicate code.length none).set 0 (some ⟨[], some []⟩))
 
 def isBodyComp : VInstr → Bool
   | .renderComponent _ true => true
